@@ -135,6 +135,21 @@ static void ClearHistory(InterpreterEnv& env)
     env.opcode_pos_history.clear();
 }
 
+// A step that fails executes nothing: besides the position, the bookkeeping the interpreter updates before it detects the
+// failure (operation count, tapscript signature budget, ...) goes back to what the history entry of this step recorded,
+// so that the step can be taken again (e.g. after `exec` supplied a missing operand) without being counted twice.
+static void RestoreFailedStep(InterpreterEnv& env)
+{
+    env.pc = env.pc_history.back();
+    env.stack = env.stack_history.back();
+    env.altstack = env.altstack_history.back();
+    env.nOpCount = env.nOpCount_history.back();
+    env.vfExec = env.vfExec_history.back();
+    env.pbegincodehash = env.pbegincodehash_history.back();
+    env.execdata = env.execdata_history.back();
+    env.opcode_pos = env.opcode_pos_history.back();
+}
+
 bool StepScript(InterpreterEnv& env)
 {
     // tapscript commitments go first
@@ -175,7 +190,7 @@ bool StepScript(InterpreterEnv& env)
             stepped = StepScript(env, pc);
         } catch (...) {
             // a failing operation may also throw (script number errors): drop its history entry as well
-            env.pc = env.pc_history.back();
+            RestoreFailedStep(env);
             env.stack_history.pop_back();
             env.altstack_history.pop_back();
             env.pc_history.pop_back();
@@ -188,7 +203,7 @@ bool StepScript(InterpreterEnv& env)
         }
         if (!stepped) {
             // the failing operation is not executed: stay positioned at it (reading it moved pc past it)
-            env.pc = env.pc_history.back();
+            RestoreFailedStep(env);
             // undo above pushes
             env.stack_history.pop_back();
             env.altstack_history.pop_back();
